@@ -89,7 +89,7 @@ class Ctx:
         for k in self.known:
             if fnmatch.fnmatchcase(key, k['key']):
                 if k.get('instances_file'):
-                    if instance is None or instance not in self._instances(k):
+                    if instance is None or hashlib.sha1(instance.encode()).hexdigest()[:12] not in self._instances(k):
                         key = key + ':input-not-in-known-list'
                         break
                 if k['key'] not in self.known_hit:
